@@ -941,6 +941,11 @@ pub fn replay(payload: &Value) -> i32 {
 			_ => return 2,
 		}
 	}
+	if kind == "foreign-prefix" {
+		// the case is a fixed element of the check's own enumeration: re-run the check
+		let code = run(&[]);
+		return if code == 0 { 0 } else { 1 };
+	}
 	if kind == "api" {
 		// wallet keys are a function of the seeds only: a fresh world suffices
 		let dir = format!("{}/c10-replay", scratch_root());
@@ -1163,6 +1168,68 @@ pub fn run(_args: &[String]) -> i32 {
 			None
 		}
 	};
+	// ---- recipients whose address carries the other network's prefix (the age key depends on the
+	// ed25519 key only): alone, and mixed with a local-prefix recipient in either order. The call may
+	// refuse; if it answers, the message must be encrypted and open with every listed recipient's key.
+	let mut foreign_prefix_cases = 0u64;
+	{
+		let si = sel[0];
+		let c = &corpus[si];
+		let wh = world.w(WALLETS[c.creator]);
+		let local = |r: usize| address_of(&key_of(r, 0, 0));
+		let foreign = |r: usize| {
+			let mut a = address_of(&key_of(r, 0, 0));
+			a.hrp = if a.hrp == "grin" { "tgrin".to_owned() } else { "grin".to_owned() };
+			a
+		};
+		let sets: Vec<(&str, Vec<SlatepackAddress>, Vec<usize>)> = vec![
+			("foreign-only", vec![foreign(0)], vec![0]),
+			("foreign+local", vec![foreign(0), local(1)], vec![0, 1]),
+			("local+foreign", vec![local(0), foreign(1)], vec![0, 1]),
+		];
+		for sender in [false, true].iter() {
+			let sidx = if *sender { Some(0u32) } else { None };
+			let es = if *sender { Some(addr0[cases[si].creator].to_string()) } else { None };
+			for (label, rec, rset) in sets.iter() {
+				let mut verdicts: Vec<Option<(String, String)>> = vec![];
+				for _ in 0..2 {
+					foreign_prefix_cases += 1;
+					let mut v: Option<(String, String)> = None;
+					match owner::create_slatepack_message(wh.inst.clone(), wh.mask(), &c.slate, sidx, rec.clone()) {
+						Err(_) => {}
+						Ok(armored) => match SlatepackArmor::decode(armored.as_bytes()) {
+							Err(e) => v = Some(("undecodable".into(), format!("the message cannot be un-armored: {:?}", e))),
+							Ok(bin) => {
+								if bin.len() > 2 && bin[2] != 1 {
+									v = Some(("not-encrypted".into(), "recipients were given but the message is not encrypted (mode 0: slate and sender readable without any key)".into()));
+								} else {
+									for r in rset.iter() {
+										let d = decode(&bin, Some(&key_of(*r, 0, 0)));
+										if let Some(f) = differs(&d, &es, &cases[si].canon) {
+											v = Some((format!("listed-recipient-cannot-open:{}", f), format!("the listed recipient {} does not get the original slate and sender with its key ({})", WALLETS[*r], d.class())));
+											break;
+										}
+									}
+								}
+							}
+						},
+					}
+					verdicts.push(v);
+				}
+				if verdicts[0].as_ref().map(|x| &x.0) != verdicts[1].as_ref().map(|x| &x.0) {
+					return rep.finish(Some(format!("non-deterministic verdict for foreign-prefix recipients {}", label)));
+				}
+				if let Some((k, what)) = verdicts[0].clone() {
+					rep.add_finding(Finding {
+						key: format!("C10/foreign-prefix-recipient/{}/{}", label, k),
+						what: format!("slate {} sender={} recipients {} (an address with the other network's prefix): {}", cases[si].name, if *sender { "some" } else { "none" }, label, what),
+						replay: json!({"kind": "foreign-prefix", "set": label, "sender": sender}),
+					});
+				}
+			}
+		}
+	}
+	rep.cov("foreign_prefix_recipient_cases", json!(foreign_prefix_cases));
 	let mut injected: Option<Cand> = None;
 	// ---- oracle self-check: each clause of the oracle fires on a case built to break it ---------
 	{
